@@ -86,6 +86,7 @@ TOL_VALUE = 1e-9
 TOL_VANISH = 1e-10
 PAIR_ALL_MAX = 16
 MAXV = 4  # violations reported per task and clause
+EXTRA_DEPTH = {'UnitSquare': 3, 'Circle': 3}  # thorough tier only
 
 CURVES = ('UnitSquare', 'PiSquare', 'LShapeDriver', 'Circle')
 DOMAIN = {'UnitSquare': 'UnitSquare', 'PiSquare': 'PiSquare', 'LShapeDriver': 'LShape', 'Circle': 'Circle'}
@@ -272,8 +273,12 @@ def _bits(x):
     return np.asarray(x, dtype=float).tobytes()
 
 
+def _fr(rect):
+    return tuple(float(x) for x in rect)
+
+
 def _hist_json(h):
-    return [[list(r), ax] for r, ax in h]
+    return [[[float(x) for x in r], int(ax)] for r, ax in h]
 
 
 def _hist_from_json(h):
@@ -302,7 +307,7 @@ def mesh_task(item):
         rp = {'kind': 'mesh', 'cfg': cfgname, 'history': _hist_json(hist), 'uniform': uniform, 'problem': problem}
         rp.update(extra)
         out['viols'].append(({'clause': clause, 'cfg': cfgname, 'problem': problem},
-                             '{} on {} history={} uniform={} problem={}: {}'.format(clause, cfgname, list(hist), uniform, problem, what), rp))
+                             '{} on {} history={} uniform={} problem={}: {}'.format(clause, cfgname, _hist_json(hist), uniform, problem, what), rp))
 
     # ---- reference side: second real mesh, real quartering, single-pair assembly -------------------------------
     m2 = replicate_mesh(cfgname, hist, uniform, reference=True)
@@ -331,11 +336,11 @@ def mesh_task(item):
         kids = _HIERmod.DummyElement.uniform_refinement(elems)
         for e, ch in zip(elems, kids):
             out['quarters'] += 1
-            want = sorted(estim_ref.quarter_rects(rect_of(e)).values())
-            got = sorted(tuple(c.time_interval) + tuple(c.space_interval) for c in ch)
+            want = sorted(_fr(q) for q in estim_ref.quarter_rects(rect_of(e)).values())
+            got = sorted(_fr(tuple(c.time_interval) + tuple(c.space_interval)) for c in ch)
             if got != want or any(c.gamma_space is not e.gamma_space for c in ch):
                 quarters_ok = False
-                viol('quarters', '-', 'virtual children of {} are {} (expected the quarters {})'.format(rect_of(e), got, want), {})
+                viol('quarters', '-', 'virtual children of {} are {} (expected the quarters {})'.format(_fr(rect_of(e)), got, want), {})
         if len(kids) != N:
             quarters_ok = False
             viol('quarters', '-', 'uniform_refinement returned {} child lists for {} elements'.format(len(kids), N), {})
@@ -375,7 +380,7 @@ def mesh_task(item):
             except Exception as ex:
                 return None, repr(ex)
 
-        tags = density_tags(N, all_pairs)
+        tags = density_tags(N, all_pairs or N <= PAIR_ALL_MAX)
         # the Galerkin density goes first: its first call fills the memo, its second call is answered from it
         tags = [tags[-1]] + tags[:-1]
         if only is not None:
@@ -438,7 +443,7 @@ def mesh_task(item):
                         i, c = np.unravel_index(int(np.argmax(dev)), dev.shape)
                         viol('hier-value', problem, 'density {}: element {} {} indicator: code {:.15e}, definition {:.15e}; '
                              'max |diff|/S = {:.3e} (S = {:.6e}, largest reference indicator {:.6e})'.format(
-                                 tag, rect_of(elems[i]), ('time', 'space')[c], val[i, c], r_ind[i, c], rel, r_mag, r_ind.max()), dj)
+                                 tag, _fr(rect_of(elems[i])), ('time', 'space')[c], val[i, c], r_ind[i, c], rel, r_mag, r_ind.max()), dj)
                     if r_ind.max() > 1e-6 * r_mag:
                         out['nontrivial'] += 1
             # ---------- pool path of HH2 (stand-in pool), on the first density only: the path does not depend on Phi
@@ -548,12 +553,12 @@ def prol_task(item):
                     if idx:
                         j = idx[0]
                         bad = '{} of {} entries differ, e.g. fine element {}: got {!r}, containment gives {!r}'.format(
-                            len(idx), len(fl), rect_of(fl[j]), float(got[j]), float(want[j]))
+                            len(idx), len(fl), _fr(rect_of(fl[j])), float(got[j]), float(want[j]))
             except Exception as ex:
                 bad = 'raised {!r}'.format(ex)
             if bad and len(out['viols']) < MAXV:
                 out['viols'].append(({'clause': 'prolongate', 'cfg': cfgname},
-                                     'Prolongate on {} history={} target={} order={}: {}'.format(cfgname, list(hist), tgt, order, bad),
+                                     'Prolongate on {} history={} target={} order={}: {}'.format(cfgname, _hist_json(hist), tgt, order, bad),
                                      {'kind': 'prolongate', 'cfg': cfgname, 'history': _hist_json(hist), 'two_step': two_step}))
     return out
 
@@ -635,7 +640,7 @@ def pool_task(item):
                     a, a0, float(np.max(np.abs(np.asarray(b) - np.asarray(b0)))) if np.shape(b) == np.shape(b0) else 'shape')
             if bad and len(out['viols']) < MAXV:
                 out['viols'].append(({'clause': 'pool-bits', 'cfg': cfgname, 'problem': problem},
-                                     'virtual pool cpu={} schedule={} on {} history={} problem={}: {}'.format(cpu, spec, cfgname, list(hist), problem, bad),
+                                     'virtual pool cpu={} schedule={} on {} history={} problem={}: {}'.format(cpu, spec, cfgname, _hist_json(hist), problem, bad),
                                      {'kind': 'pool', 'cfg': cfgname, 'history': _hist_json(hist), 'problem': problem, 'cpus': [cpu]}))
     return out
 
@@ -669,7 +674,15 @@ def _plan(ctx):
             mesh_items.append((c, h, 0, ['Dirichlet', 'MildSingular'], True, None))
             prol_items.append((c, h, not quick))
         # the once uniformly refined initial mesh (16 / 16 / 32 / 16 elements -> 64..128 after quartering)
-        mesh_items.append((c, (), 1, ['Dirichlet', 'MildSingular'], not quick or len(build(CFGS[c], ()).leaf_elements) * 4 <= PAIR_ALL_MAX, None))
+        mesh_items.append((c, (), 1, ['Dirichlet', 'MildSingular'], not quick, None))
+    # thorough: one more BFS level on two curves (value clauses only)
+    if not quick:
+        for c, d in EXTRA_DEPTH.items():
+            hs = [h for h in meshmc.all_states(ctx, c, d, key='leaf') if len(h) > depth]
+            per[c]['extra_depth'] = d
+            per[c]['extra_states'] = len(hs)
+            for h in hs:
+                mesh_items.append((c, h, 0, ['Dirichlet', 'MildSingular'], True, None))
     # initial data: the initial mesh of each combination (quick), plus every depth-1 state (thorough)
     init_items = []
     for c, p in INITIAL_COMBOS:
@@ -700,8 +713,7 @@ def run(ctx):
         ctx.note('mc/vpool.py not usable ({}); schedule clause restricted to the serial stand-in and the genuine pool'.format(_VPOOL_ERR))
     # expensive items first
     items = init_items + mesh_items
-    order = sorted(range(len(items)), key=lambda k: -(len(items[k][1]) + 100 * items[k][2] + (50 if items[k] in init_items else 0)))
-    items = [items[k] for k in order]
+    items.sort(key=lambda it: -(len(it[1]) + 100 * it[2] + (50 if PROBLEMS[it[3][0]][1] else 0)))
     res = pmap(mesh_task, items, ctx.jobs, chunksize=1)
     agg = {k: 0 for k in ('cmp_hh2', 'cmp_hier', 'vanish', 'pool', 'nonneg', 'quarters', 'memo_checks', 'nontrivial',
                           'ref_single_calls', 'densities')}
@@ -762,7 +774,7 @@ def run(ctx):
         genuine.append({'cfg': c, 'history': _hist_json(h), 'problem': p, 'N': N, 'bits_equal': ok})
         if not ok:
             ctx.violation({'clause': 'pool-bits', 'cfg': c, 'problem': p},
-                          'genuine fork pool on {} history={} problem={}: estimators differ from the serial path: {}'.format(c, list(h), p, vals),
+                          'genuine fork pool on {} history={} problem={}: estimators differ from the serial path: {}'.format(c, _hist_json(h), p, vals),
                           {'kind': 'genuine', 'cfg': c, 'history': _hist_json(h), 'problem': p})
     ctx.note('pool: {} stand-in comparisons, {} virtual-pool schedules ({} pools, {} pool calls, {} uncontrolled), genuine pool cases {}'.format(
         agg['pool'], sched['schedules'], sched['pools'], sched['pool_calls'], sched['uncontrolled'], len(genuine)))
